@@ -2,6 +2,7 @@ package mon
 
 import (
 	"bytes"
+	"context"
 	"fmt"
 	"io"
 	"math/rand"
@@ -10,6 +11,7 @@ import (
 
 	"github.com/cloudwego/gopkg/bufiox"
 	"github.com/cloudwego/gopkg/protocol/thrift"
+	"github.com/cloudwego/gopkg/protocol/ttheader"
 
 	"verifharness/doubles"
 	"verifharness/drv"
@@ -157,6 +159,9 @@ func monC09(c *drv.Ctx) {
 	// been collected and any finalizer of it has run
 	c.Stage("abandoned-without-release", c.Pick(60, 600), false, func(cs *drv.Case) {
 		r := cs.R
+		if san.PoolShim {
+			san.PoolReset()
+		}
 		isWriter := cs.Idx%2 == 1
 		var held []heldSlice
 		var regions [][]byte
@@ -201,6 +206,134 @@ func monC09(c *drv.Ctx) {
 		}
 		cs.Count(true, cfgName, isWriter, cs.Idx)
 		cs.C.Obs("abandoned readers/writers whose slices were re-checked after GC", 1)
+	})
+
+	// (1d) components layered over a reader (header decoder, stream codec, skip decoder) consume from it but
+	// never release it on the caller's behalf - least of all when they fail: a slice the caller took earlier
+	// stays what it was, and ReadLen keeps counting from the caller's own last Release
+	c.Stage("layered-failures-keep-slices", c.Pick(3000, 40000), false, func(cs *drv.Case) {
+		r := cs.R
+		if san.PoolShim {
+			san.PoolReset()
+		}
+		prefix := gen.Bytes(r, 1+r.Intn(300))
+		kind := r.Intn(4)
+		var body []byte
+		var vt byte
+		switch kind {
+		case 0:
+			body, _ = ttheader.EncodeToBytes(context.Background(), ttheader.EncodeParam{SeqID: gen.I32(r), IntInfo: map[uint16]string{uint16(r.Intn(30)): string(gen.Bytes(r, r.Intn(20)))},
+				StrInfo: map[string]string{"k" + fmt.Sprint(r.Intn(9)): string(gen.Bytes(r, r.Intn(40)))}})
+			body = append(body, gen.Bytes(r, r.Intn(30))...)
+		case 3:
+			body = ref.EncMessageBegin(nil, string(gen.Bytes(r, r.Intn(30))), int32(1+r.Intn(4)), gen.I32(r))
+		default:
+			vt = []byte{ref.STRING, ref.LIST, ref.MAP, ref.STRUCT, ref.SET}[r.Intn(5)]
+			v := gen.Tree(r, vt, gen.TreeOpts{MaxDepth: 3, MaxElems: 4, NoBigCounts: true}, 0)
+			body = v.Encode(nil)
+		}
+		mutated := r.Intn(3) > 0
+		if mutated && len(body) > 0 {
+			switch r.Intn(3) {
+			case 0:
+				body = body[:r.Intn(len(body))]
+			case 1:
+				body[r.Intn(len(body))] ^= byte(1 + r.Intn(255))
+			default:
+				k := r.Intn(len(body))
+				body[k] = 0xff
+				if k+1 < len(body) {
+					body[k+1] = 0xff
+				}
+			}
+		}
+		stream := append(append(append([]byte(nil), prefix...), body...), gen.Bytes(r, r.Intn(50))...)
+		// hostile length fields make a stream reader wait for (and buffer) what they declare: keep that affordable
+		var ask uint64
+		rest := stream[len(prefix):] // what the component may look at: the (cut) body and whatever follows it
+		switch kind {
+		case 1, 2:
+			ask = ref.Parse(rest, vt).MaxAsk
+		case 3:
+			if len(rest) >= 8 {
+				ask = uint64(uint32(rest[4])<<24 | uint32(rest[5])<<16 | uint32(rest[6])<<8 | uint32(rest[7]))
+			}
+		}
+		if ask > 1<<17 {
+			cs.C.DontCare("layered-declared-size-above-cap")
+			return
+		}
+		src := &doubles.Source{Data: stream, Len: len(stream), ErrAt: len(stream), Err: io.EOF, Sched: r.Intn(doubles.NSched), R: r, WithData: r.Intn(2) == 0, Budget: 10*len(stream) + 100000}
+		rd := bufiox.NewDefaultReader(src)
+		var held []byte
+		var err error
+		if r.Intn(2) == 0 {
+			if held, err = rd.Peek(len(prefix)); err == nil {
+				err = rd.Skip(len(prefix))
+			}
+		} else {
+			held, err = rd.Next(len(prefix))
+		}
+		if err != nil || !bytes.Equal(held, prefix) {
+			cs.Fail("retained-slice-changed", M{"stage": "layered, before the component ran"}, M{"err": errString(err)})
+			return
+		}
+		before := rd.ReadLen()
+		names := []string{"ttheader.Decode", "BufferReader.Skip", "SkipDecoder.Next", "BufferReader.ReadMessageBegin"}
+		cs.Desc = M{"config": cfgName, "component": names[kind], "prefix_len": len(prefix), "body_hex": hexOf(body), "mutated": mutated}
+		var cerr error
+		func() {
+			defer func() {
+				if p := recover(); p != nil {
+					cerr = fmt.Errorf("panic: %v", p)
+				}
+			}()
+			switch kind {
+			case 0:
+				_, cerr = ttheader.Decode(context.Background(), rd)
+			case 1:
+				br := thrift.NewBufferReader(rd)
+				cerr = br.Skip(thrift.TType(vt))
+				br.Recycle()
+			case 2:
+				d := thrift.NewSkipDecoder(rd)
+				_, cerr = d.Next(thrift.TType(vt))
+				d.Release()
+			default:
+				br := thrift.NewBufferReader(rd)
+				_, _, _, cerr = br.ReadMessageBegin()
+				br.Recycle()
+			}
+		}()
+		cs.C.ObsMax("layered: largest buffer offered to the source", int64(src.MaxAsk))
+		if after := rd.ReadLen(); after < before {
+			cs.Fail("layered-component-released-the-reader", M{"component": names[kind], "failed": cerr != nil}, M{"readlen_before": before, "readlen_after": after, "component_error": errString(cerr),
+				"message": "ReadLen went back: the component called Release on the reader it was given"})
+			return
+		}
+		ct := &coTenant{r: r}
+		defer ct.done()
+		if !san.PoolShim {
+			if !ct.run(cs, []heldSlice{{b: held, snap: prefix, op: 0}}, nil, nil, len(stream)+8192, "layered") {
+				return
+			}
+		}
+		if !bytes.Equal(held, prefix) {
+			cs.Fail("retained-slice-changed", M{"stage": "layered", "component": names[kind], "failed": cerr != nil}, M{"component_error": errString(cerr), "first_diff": firstDiff(held, prefix),
+				"message": fmt.Sprintf("a slice taken from the reader before %s ran changed although the caller never released it", names[kind])})
+			return
+		}
+		if san.PoolShim && san.PoolInFreed(held) {
+			cs.Fail("retained-slice-in-recycled-memory", M{"stage": "layered", "component": names[kind]}, M{"component_error": errString(cerr)})
+			return
+		}
+		rd.Release(nil)
+		cs.Count(true, cfgName, kind, hexOf(body), len(prefix))
+		if cerr != nil {
+			cs.C.Obs("layered components that failed with a caller slice outstanding", 1)
+		} else {
+			cs.C.Obs("layered components that succeeded with a caller slice outstanding", 1)
+		}
 	})
 
 	// (2) writer histories: regions stay writable and disjoint until Flush
